@@ -6,7 +6,7 @@ def run(ctx):
     rnd = rng("C14")
     scs = nsplane.family_special(rnd, ctx.tier)
     rs = nsplane.family_special_random(rnd, 50 if ctx.tier == "quick" else 2000)
-    for sc in rs[len(rs) // 2:]:
+    for sc in rs[min(len(rs) // 2, 150):]:
         sc["nomodel"] = True
     scs += rs
     ctx.rule = ("fifo, socket, char devices with several (major, minor) incl. a large minor, sole source / inside a tree, fresh / existing "
